@@ -57,12 +57,13 @@ type WfSum struct {
 }
 
 type wfRec struct {
-	key    string
-	n      int
-	hash   uint64
-	mem    int
-	nextPC uint64 // emulation: pc_before of the next instruction
-	evs    []*Ev
+	retired bool // its s_endpgm has completed (timing)
+	key     string
+	n       int
+	hash    uint64
+	mem     int
+	nextPC  uint64 // emulation: pc_before of the next instruction
+	evs     []*Ev
 }
 
 type regReader interface {
@@ -82,9 +83,15 @@ type collector struct {
 	opcodes  map[string]int
 	total    int
 	cdna3    bool
+	lite     map[string]liteRef
 	flagged  map[string]bool
 	flags    []string
 	journal  *os.File // full mode: every start / completion is appended at once (survives a crash)
+}
+
+type liteRef struct {
+	rec *wfRec
+	in  *insts.Inst
 }
 
 type taskRef struct {
@@ -96,7 +103,7 @@ type taskRef struct {
 
 func newCollector(full bool) *collector {
 	return &collector{full: full, launches: map[*kernels.HsaKernelDispatchPacket]int{},
-		recs: map[*kernels.Wavefront]*wfRec{}, byTask: map[string]taskRef{}, opcodes: map[string]int{}, flagged: map[string]bool{}}
+		recs: map[*kernels.Wavefront]*wfRec{}, byTask: map[string]taskRef{}, opcodes: map[string]int{}, flagged: map[string]bool{}, lite: map[string]liteRef{}}
 }
 
 func (c *collector) rec(raw *kernels.Wavefront) *wfRec {
@@ -378,6 +385,9 @@ func (c *collector) startTask(t tracing.Task, unit *cu.ComputeUnit) {
 	}
 	r := c.rec(wf.Wavefront)
 	ev := c.note(r, wf.PC()-entryPC(wf.Wavefront), in.Inst)
+	if isMem(in.Inst) || (in.Inst.FormatType == insts.SOPP && in.Inst.Opcode == 1) {
+		c.lite[t.ID] = liteRef{rec: r, in: in.Inst}
+	}
 	if ev != nil {
 		if len(r.evs) == 1 {
 			ev.Init = initState(wf)
@@ -390,11 +400,28 @@ func (c *collector) startTask(t tracing.Task, unit *cu.ComputeUnit) {
 }
 
 func (c *collector) EndTask(t tracing.Task) {
+	c.mu.Lock()
+	defer c.mu.Unlock()
+	if l, ok := c.lite[t.ID]; ok {
+		delete(c.lite, t.ID)
+		if l.in.FormatType == insts.SOPP {
+			l.rec.retired = true
+		} else if l.rec.retired && !c.flagged["late:"+l.in.InstName] {
+			// a memory instruction of a wavefront completes after the
+			// wavefront's s_endpgm has: its registers may already belong to
+			// another wavefront
+			c.flagged["late:"+l.in.InstName] = true
+			msg := fmt.Sprintf("memory-response-after-wavefront-retired %s %s (wavefront %s)", strings.ToLower(l.in.Format.FormatName), l.in.InstName, l.rec.key)
+			c.flags = append(c.flags, msg)
+			if f, err := os.OpenFile("flags.txt", os.O_CREATE|os.O_WRONLY|os.O_APPEND, 0o644); err == nil {
+				fmt.Fprintln(f, msg)
+				f.Close()
+			}
+		}
+	}
 	if !c.full {
 		return
 	}
-	c.mu.Lock()
-	defer c.mu.Unlock()
 	ref, ok := c.byTask[t.ID]
 	if !ok {
 		return
